@@ -395,6 +395,171 @@ fn run_boundary_keys(cx: &mut CaseCx, case: &Value) {
 }
 
 
+/// Honest reports whose share point - or share VALUE - is one of the field's edge elements: the field has
+/// p = 2^128 + 12451 elements, so 12451 of them need a 129th bit; an honest client draws such a point with
+/// probability 2^-114, which no run meets by chance. Each group has EXACTLY t reports (a single refused share
+/// loses the measurement), t+1 (nothing may be lost or doubled) or t-1 (must stay hidden).
+fn run_field_edges(cx: &mut CaseCx, case: &Value) {
+  use crate::refmodel as rm;
+  let t = case["t"].as_u64().unwrap() as u32;
+  let epoch = "t";
+  let one = BigUint::from(1u32);
+  let p = rm::p();
+  let top = &one << 128usize;
+  let mut targets: Vec<(String, BigUint)> = vec![
+    ("1".into(), one.clone()),
+    ("2^64".into(), &one << 64usize),
+    ("2^127".into(), &one << 127usize),
+    ("2^128-1".into(), &top - &one),
+    ("2^128".into(), top.clone()),
+    ("2^128+1".into(), &top + &one),
+    ("2^128+6225".into(), &top + BigUint::from(6225u32)),
+    ("p-2".into(), &p - BigUint::from(2u32)),
+    ("p-1".into(), &p - &one),
+    ("(p-1)/2".into(), rm::q()),
+    ("(p+1)/2".into(), rm::q() + &one),
+  ];
+  // value edges (t = 2 only: the sharing polynomial is a line, so the point with a given value can be solved for)
+  let value_targets: Vec<(String, BigUint)> = vec![("2^128".into(), top.clone()), ("p-1".into(), &p - &one), ("2^128+1".into(), &top + &one), ("0".into(), BigUint::from(0u32))];
+  let mut reps: Vec<Rep> = vec![];
+  let mut k = 0usize;
+  let mut gi = 0usize;
+  let mut edge_points = 0u64;
+  let mut edge_values = 0u64;
+  let mut fresh = |meas: &[u8], rnd: &[u8; 32], k: &mut usize, script: Option<&BigUint>| -> Option<Rep> {
+    getrandom::verif::set_group(*k as u32 + 1);
+    match script {
+      Some(x) => getrandom::verif::set_script(&craft_bytes(x)),
+      None => {
+        getrandom::verif::clear_script();
+      }
+    }
+    let aux = aux_for(*k);
+    *k += 1;
+    let r = gen_report(meas, epoch.as_bytes(), t, rnd, &aux);
+    getrandom::verif::clear_script();
+    let msg = r.ok()?;
+    let x = share_x(&msg.share.to_bytes())?;
+    Some(Rep { msg, meas: meas.to_vec(), aux, x })
+  };
+  // ---- point edges
+  for (name, x) in targets.drain(..) {
+    for (cnt, pos) in [(t as usize, 0usize), (t as usize, t as usize - 1), (t as usize + 1, 1), (t as usize - 1, 0)] {
+      if cnt == 0 {
+        continue;
+      }
+      let meas = format!("edge-point/{}/{}/{}", name, cnt, gi).into_bytes();
+      gi += 1;
+      let rnd = local_randomness(&meas, epoch.as_bytes(), t);
+      for j in 0..cnt {
+        let want_x = if j == pos.min(cnt - 1) { Some(&x) } else { None };
+        match fresh(&meas, &rnd, &mut k, want_x) {
+          Some(r) => {
+            if want_x.is_some() {
+              if r.x != x {
+                cx.note("scripted share point was not taken over by the dealer (seam drift): group skipped");
+                continue;
+              }
+              edge_points += 1;
+            }
+            reps.push(r);
+          }
+          None => {
+            cx.viol("C18/generate-failed/field-edge", format!("an honest report could not be generated with share point {}", name), json!({"t": t, "point": name}));
+            return;
+          }
+        }
+      }
+    }
+  }
+  // ---- value edges
+  if t == 2 {
+    for (name, y) in &value_targets {
+      for cnt in [2usize, 3, 1] {
+        let meas = format!("edge-value/{}/{}/{}", name, cnt, gi).into_bytes();
+        gi += 1;
+        let rnd = local_randomness(&meas, epoch.as_bytes(), t);
+        // two ordinary reports give the line
+        let probe: Vec<Rep> = (0..2).filter_map(|_| fresh(&meas, &rnd, &mut k, None)).collect();
+        if probe.len() != 2 {
+          continue;
+        }
+        let pts: Vec<(BigUint, BigUint)> = probe.iter().filter_map(|r| rm::parse_adss(&r.msg.share.to_bytes()).map(|s| (s.s.x.clone(), s.s.y[0].clone()))).collect();
+        if pts.len() != 2 || pts[0].0 == pts[1].0 {
+          continue;
+        }
+        let co = rm::interpolate_coeffs(&pts);
+        let inv = match rm::invm(&co[1]) {
+          Some(i) => i,
+          None => continue,
+        };
+        let x = rm::mulm(&rm::subm(y, &co[0]), &inv);
+        if x == BigUint::from(0u32) {
+          continue;
+        }
+        let edge = match fresh(&meas, &rnd, &mut k, Some(&x)) {
+          Some(r) => r,
+          None => {
+            cx.viol("C18/generate-failed/field-edge", format!("an honest report could not be generated whose share value is {}", name), json!({"t": t, "value": name}));
+            return;
+          }
+        };
+        let got_y = rm::parse_adss(&edge.msg.share.to_bytes()).map(|s| s.s.y[0].clone());
+        if got_y.as_ref() != Some(y) {
+          cx.note("solved share point did not give the targeted share value (several value positions?): group skipped");
+          continue;
+        }
+        edge_values += 1;
+        reps.push(edge);
+        let mut others = probe;
+        others.truncate(cnt - 1);
+        reps.extend(others);
+      }
+    }
+  }
+  cx.count("edge_point_reports", edge_points);
+  cx.count("edge_value_reports", edge_values);
+  let server = AggregationServer::new(t, epoch);
+  let all: Vec<&Rep> = reps.iter().collect();
+  let want = expected(&all, t);
+  cx.nontrivial(fnv_str(&case.to_string()));
+  for (pn, pool) in pools(&[1, 4]) {
+    for rev in [false, true] {
+      let mut msgs: Vec<Message> = reps.iter().map(|r| r.msg.clone()).collect();
+      if rev {
+        msgs.reverse();
+      }
+      if !judge(cx, observe(&server, &pool, &msgs), &want, &|| json!({"t": t, "groups": gi, "worker_threads": pn, "reversed": rev, "note": "one report per group has its share point (or, for t = 2, its share value) at an edge of the field: 1, 2^64, 2^127, 2^128-1, 2^128 .. p-1 (the 12451 elements that need a 129th bit), (p-1)/2"})) {
+        if let Some(v) = cx.viols.last_mut() {
+          v.key = format!("{}/field-edge", v.key);
+          v.what = format!("honest reports with an edge element of the field as share point / value: {}", v.what);
+        }
+        return;
+      }
+    }
+  }
+  // ... and group by group (so that the failing element is named)
+  let (_, pool) = pools(&[1]).remove(0);
+  let mut by_meas: BTreeMap<Vec<u8>, Vec<&Rep>> = BTreeMap::new();
+  for r in &reps {
+    by_meas.entry(r.meas.clone()).or_default().push(r);
+  }
+  for (m, rs) in &by_meas {
+    let w = expected(rs, t);
+    let msgs: Vec<Message> = rs.iter().map(|r| r.msg.clone()).collect();
+    if !judge(cx, observe(&server, &pool, &msgs), &w, &|| json!({"t": t, "group": String::from_utf8_lossy(m), "reports": rs.len()})) {
+      if let Some(v) = cx.viols.last_mut() {
+        v.key = format!("{}/field-edge", v.key);
+      }
+      return;
+    }
+  }
+  cx.count("revealed_groups", want.len() as u64);
+  cx.count("hidden_groups", (by_meas.len() - want.len()) as u64);
+  cx.outcome(format!("field edges t={} revealed={} hidden={}", t, want.len(), by_meas.len() - want.len()));
+}
+
+
 /// ONE aggregation-server object reused for MANY calls: 60 consecutive `retrieve_outputs` calls over batches
 /// that alternate between a full batch, its halves, an empty batch and a batch of another composition - every
 /// call's output is what a fresh server gives for that batch (no state from one call to the next, no even /
@@ -723,6 +888,13 @@ pub fn spec() -> PropSpec {
         },
         run: run_boundary_keys,
         min_counts: &[("boundary_keys_found", 35), ("revealed_groups", 20)],
+      },
+      Check {
+        name: "field-edges",
+        rule: "t in {2,3,5}: per edge element e of the field in {1, 2^64, 2^127, 2^128-1, 2^128, 2^128+1, 2^128+6225, p-2, p-1, (p-1)/2, (p+1)/2} groups of exactly t (edge report first / last), t+1 and t-1 honest reports of which ONE has its share point scripted to e; for t = 2 also groups in which one report's share VALUE is 2^128, 2^128+1, p-1 or 0 (its point solved from the line through two ordinary reports); the whole batch (forwards / reversed, 1 and 4 workers) and every group alone: revealed iff >= t reports, with exactly the clients' associated data",
+        gen: |_| [2u64, 3, 5].iter().map(|t| json!({"t": t})).collect(),
+        run: run_field_edges,
+        min_counts: &[("edge_point_reports", 100), ("edge_value_reports", 8), ("revealed_groups", 60), ("hidden_groups", 20)],
       },
       Check {
         name: "server-reuse",
